@@ -70,6 +70,7 @@ E_BadPortion     == "BadPortionParsingErr"
 E_BadMonetary    == "InvalidMonetaryLiteral"
 E_BadNumber      == "InvalidNumberLiteral"
 E_Experimental   == "ExperimentalFeature"
+E_BadAccount     == "InvalidAccountName"
 E_QueryBalance   == "QueryBalanceError"
 E_QueryMeta      == "QueryMetadataError"
 
@@ -120,7 +121,8 @@ Allot(n, ps) ==
            tot    == NumSum(ps, 1, L)
            hasRem == \E i \in 1..Len(ps) : IsRem(ps[i])
            PNum(i) == IF IsRem(ps[i]) THEN L - tot ELSE ps[i].n * (L \div ps[i].d)
-       IN IF ~hasRem /\ tot # L THEN [err |-> E_AllotSum, sh |-> <<>>]
+       IN IF (~hasRem /\ tot # L) \/ (hasRem /\ tot > L)      \* `remaining` cannot stand for a negative portion
+          THEN [err |-> E_AllotSum, sh |-> <<>>]
           ELSE LET fl   == [i \in 1..Len(ps) |-> (n * PNum(i)) \div L]
                    left == n - SumTo(fl, Len(ps))
                IN [err |-> "", sh |-> [i \in 1..Len(ps) |-> fl[i] + (IF i <= left THEN 1 ELSE 0)]]
